@@ -403,7 +403,7 @@ func replayGenerated(c *lib.Ctx, emptyDir string, texts []genText) error {
 		go func(wi int) {
 			defer wg.Done()
 			w := &genWorker{c: c, dir: emptyDir, cp: newCompleter(), id: wi, phase: int(c.Seed % 3), stats: map[string]int{}}
-			for i := wi; i < len(texts) && w.missing < 2; i += par {
+			for i := wi; i < len(texts) && w.missing < 2 && c.Violations() <= 20; i += par { // (more than 20 are not stored anyway)
 				if err := w.replayText(texts[i]); err != nil {
 					mu.Lock()
 					if firstErr == nil {
